@@ -12,8 +12,9 @@
         except RuntimeError:  session.closed ? raise APISessionClosed : raise
         except (ClientConnectionError, APIServerError, TimeoutError, APIForbiddenError,
                 APITooManyRequestsError) as e:
-            if 429: retry_after := header "Retry-After" (truthy) ▸ int(float(.))
+            if 429: retry_after := header "Retry-After" (truthy) ▸ _parse_retry_after(.)
                                | details.retryAfterSeconds (truthy) ▸ int(.) | None
+                    -- _parse_retry_after: int(float(v)) | HTTP-date ▸ max(0, int(when - now)) | None
                     if retry_after is not None and backoff is not None:
                         if enforce_retry_after or retry_after > backoff: backoff = retry_after
             if SSL-marker in str(e): raise APISessionClosed
@@ -64,15 +65,21 @@ inductive PayloadKind where
   | empty
   deriving DecidableEq, Repr, Inhabited
 
-/-- What one HTTP error response carries, as far as the loop reads it. Retry-After values are in
-    ticks of the *requested* time; the code truncates them to whole seconds (`int(float(..))`). -/
+/-- The `Retry-After` header as `api._parse_retry_after` sees it. Values are in ticks. -/
+inductive Hdr where
+  | absent                  -- no header, or an empty string (falsy: the details branch is consulted)
+  | secs (x : Int)          -- delay-seconds (anything `float()` parses to a finite number)
+  | date (delta : Int)      -- an HTTP-date; `delta = when - now` at the moment the handler runs
+  | garbage                 -- neither: parsed to None — and the details are NOT consulted
+  | overflow                -- `float()` gives ±inf ("inf", "1e999"): `int()` raises OverflowError (finding F2)
+  deriving DecidableEq, Repr, Inhabited
+
+/-- What one HTTP error response carries, as far as the loop reads it. -/
 structure Resp where
   status : Nat
-  hdrRA : Option Int          -- `Retry-After` header (None = absent or empty string)
-  hdrBad : Bool               -- the header is present but `float()` cannot parse it (an HTTP-date,
-                              -- RFC 7231 §7.1.3): `int(float(..))` raises ValueError (finding F1)
+  hdr : Hdr
   payload : PayloadKind
-  detRA : Option Int          -- `details.retryAfterSeconds` in the JSON body, if present
+  detRA : Option Int          -- `details.retryAfterSeconds` in the JSON body, if present (ticks)
   deriving DecidableEq, Repr, Inhabited
 
 /-- What the fake session does on one attempt. -/
@@ -91,16 +98,21 @@ structure Att where
 
 def tickPerSec : Int := 1024
 
-/-- `int(float(x))` on a non-negative value given in ticks: whole seconds, back in ticks. -/
-def truncSec (x : Int) : Int := (x / tickPerSec) * tickPerSec
+/-- `int(x)` on a value given in ticks: whole seconds towards zero, back in ticks. -/
+def truncSec (x : Int) : Int :=
+  if 0 ≤ x then (x / tickPerSec) * tickPerSec else -(((-x) / tickPerSec) * tickPerSec)
 
-/-- The `retry_after` of a 429 (header first — any non-empty string is truthy, "0" included;
-    then `details.retryAfterSeconds` — truthy, so 0 counts as absent; details exist only when the
-    body was a `Status` JSON). -/
+/-- The `retry_after` of a 429: the header first (any non-empty string is truthy, "0" included):
+    delay-seconds truncated, an HTTP-date as `max(0, int(when - now))`, anything else None;
+    only without a header `details.retryAfterSeconds` (truthy, so 0 counts as absent; details exist
+    only when the body was a `Status` JSON). -/
 def retryAfter (r : Resp) : Option Int :=
-  match r.hdrRA with
-  | some h => some (truncSec h)
-  | none =>
+  match r.hdr with
+  | .secs h => some (truncSec h)
+  | .date d => some (if truncSec d < 0 then 0 else truncSec d)
+  | .garbage => none
+  | .overflow => none          -- never consulted: `verdict` raises first
+  | .absent =>
     if r.payload = .statusJson then
       match r.detRA with
       | some d => if truncSec d ≠ 0 then some (truncSec d) else none
@@ -126,8 +138,8 @@ def verdict : Fault → Verdict
     if raises r.status then
       let c := classify r.status
       if retryable c then
-        -- the Retry-After parsing comes first in the handler; a ValueError there leaves `request`
-        if c = .tooMany && r.hdrBad then .raise .other
+        -- the Retry-After parsing comes first in the handler; an OverflowError there leaves `request` (F2)
+        if c = .tooMany && r.hdr = .overflow then .raise .other
         else .retry c (if c = .tooMany then retryAfter r else none)
       else .raise c
     else .success
